@@ -22,9 +22,9 @@ package wallet
 //@ func constructProofs
 //@   tags C10
 //@   safety C06 C10
-//@   requires keyset != nil && len(blindedMessages) == len(secrets)
-//@   requires forall j :: 0 <= j && j < len(rs) ==> rs[j] != nil
-//@   requires forall a :: (a in keyset.PublicKeys) ==> keyset.PublicKeys[a] != nil
+//@   requires @wellformed [C06,C10] keyset != nil && len(blindedMessages) == len(secrets)
+//@   requires @rsnonnil [C06,C10] forall j :: 0 <= j && j < len(rs) ==> rs[j] != nil
+//@   requires @keysnonnil [C06,C10] forall a :: (a in keyset.PublicKeys) ==> keyset.PublicKeys[a] != nil
 //@   calls nut12.VerifyBlindSignatureDLEQ asserts @wiring [C10] A == keyset.PublicKeys[blindedSignature.Amount] && B_str == blindedMessages[i].B_ && C_str == blindedSignature.C_ && dleq == *blindedSignature.DLEQ
 //@   ensures @len [C10] err == nil ==> len(result) == len(blindedSignatures)
 //@   ensures @checked [C10] err == nil ==> (forall j :: 0 <= j && j < len(blindedSignatures) ==> (blindedSignatures[j].Amount in keyset.PublicKeys) && result[j].Amount == blindedSignatures[j].Amount && result[j].Secret == secrets[j] && result[j].Id == blindedSignatures[j].Id && hexok(blindedSignatures[j].C_) && result[j].C == hexenc(pt.ser(padd(pt.parse(hexdec(blindedSignatures[j].C_)), smul(sneg(sc.of(rs[j].Key)), pk.pt(*keyset.PublicKeys[blindedSignatures[j].Amount]))))) && ((blindedSignatures[j].DLEQ == nil) <==> (result[j].DLEQ == nil)) && (blindedSignatures[j].DLEQ != nil ==> wbsdleq(*blindedSignatures[j].DLEQ, *keyset.PublicKeys[blindedSignatures[j].Amount], blindedMessages[j].B_, blindedSignatures[j].C_) && result[j].DLEQ.E == blindedSignatures[j].DLEQ.E && result[j].DLEQ.S == blindedSignatures[j].DLEQ.S && result[j].DLEQ.R == hexenc(sc.ser(sc.of(rs[j].Key)))))
@@ -186,7 +186,21 @@ package wallet
 // Offline path (no swap needed): the proofs returned are worth EXACTLY the amount
 // plus, when requested, the input fee of exactly those proofs.
 //@ func (*Wallet).getProofsForAmount
-//@   tags C18
+//@   tags C18 C19
 //@   requires @bound [C18] w != nil && w.db != nil && w.mints != nil && mint != nil && amount <= 1152921504606846976 && winv()
 //@   ensures @exact [C18] r1 == nil && snd.calls == old(snd.calls) ==> psum(r0) % 18446744073709551616 == amount + (includeFees ? wfee(r0, mint) : 0)
 //@   ensures @once [C18] snd.calls <= old(snd.calls) + 1
+//@   ensures @past [C19] r1 == nil ==> winv()
+
+// Melt (C19, derivation only): the NUT-08 blank outputs are derived from the counter as stored AFTER
+// the proof selection (which may swap and advance it), never below anything that may be signed.
+// What the melt stores afterwards (it advances by the number of change signatures) is not under contract.
+//@ func (*Wallet).CheckMeltQuoteState
+//@   tags C19
+//@   requires w != nil && w.db != nil && winv()
+//@   ensures @past [C19] winv()
+
+//@ func (*Wallet).Melt
+//@   tags C19
+//@   requires w != nil && w.db != nil && w.mints != nil && winv()
+//@   calls (*Wallet).createBlindedMessages asserts @fresh [C19] counter == nil || *counter >= wal.signedupto[keysetId]
